@@ -3,7 +3,7 @@
 # /tmp/confirm (full Release build incl. tests):  patch applies, everything compiles, the stable baseline tests pass,
 # the demonstration fails with the change and passes without it.
 # Usage: tools/confirm_seed.sh <dir with patch.diff demo.cxx build_demo.sh>     -> prints a summary, writes <dir>/confirm.log
-D=$(realpath "$1"); W=/tmp/confirm
+D=$(realpath "$1"); W=${CONFIRM_WT:-/tmp/confirm}
 export STIR_CONFIG_DIR=$W/src/config
 LOG=$D/confirm.log; : > "$LOG"
 git -C $W checkout -q -- . ; git -C $W status --short | grep -v '^??' && { echo "worktree dirty"; exit 2; }
